@@ -29,10 +29,14 @@ def execute(job):
     signal.signal(signal.SIGALRM, _alarm)
     signal.alarm(int(job.get('timeout', 600)))
     try:
-        prog = PROGS[(job['cfg'], job.get('feat', 'std'))]
+        prog = PROGS.get((job['cfg'], job.get('feat', 'std')))
         k = job['kind']
         if k == 'mutator':
             r = harness.run_mutator_job(prog, job)
+        elif k in ('c17_mut', 'c17_iter', 'c17_id'):
+            import c17
+            if k == 'c17_id': r = c17.run_identity_job(MIRTEXT, job)
+            else: r = (c17.run_diff_mutator if k == 'c17_mut' else c17.run_diff_iter)(PROGS, job)
         elif k in ('iter', 'pair', 'deiter'):
             import iters
             r = {'iter': iters.run_iter_job, 'pair': iters.run_pair_job, 'deiter': iters.run_de_job}[k](prog, job)
@@ -171,7 +175,7 @@ def main():
     # ---- regenerate MIR from the current tree
     scratch = mirdump.scratch_root()
     try:
-        need = sorted(set((j['cfg'], j.get('feat', 'std')) for j in jobs))
+        need = sorted(set((j['cfg'], j.get('feat', 'std')) for j in jobs) | set(tuple(x) for j in jobs for x in j.get('needs', [])))
         shim_txt = mirdump.dump_shims(scratch)
         for (cfg, feat) in need:
             txt = mirdump.dump_repo(scratch, cfg, feat)
@@ -184,6 +188,7 @@ def main():
     # ---- aggregate
     incon = []
     tot = {'paths': 0, 'steps': 0, 'obligations': 0, 'discharged': 0, 'assert_queries': 0, 'feas_queries': 0, 'solver_time': 0.0, 'nontrivial': 0}
+    identity = {}
     viols = []; lemma_viols = []; samples = []; coverage = {}; outcomes = {}; smt2 = []
     jobsum = []
     for r in results:
@@ -205,6 +210,7 @@ def main():
             key = '%s:%s' % (j.get('op', j.get('name')), k)
             outcomes[key] = outcomes.get(key, 0) + v
         smt2 += r.get('smt2', [])
+        if r.get('identity'): identity[tag] = r['identity']
         jobsum.append({'job': tag, 'paths': r.get('paths', 0), 'obligations': r.get('obligations', 0), 'wall_s': round(r.get('wall', 0), 2)})
         if r.get('paths', 1) == 0 and not r.get('vacuous'): incon.append('no path explored in job ' + tag)
     # vacuity: every named situation must be witnessed on a successful path at the largest N
@@ -282,7 +288,7 @@ def main():
                        'stamps': 'full i16 range, symbolic', 'payload': '8-bit opaque identity', 'step_bound': '4000+3000*N MIR steps per path'},
             'second_solver': {'engine': 'cvc5', 'queries': cvc5_total, 'agree': cvc5_agree},
             'replayed_counterexamples': len(groups), 'inconclusive_reasons': incon[:20],
-            'mir_dump_s': round(t_dump, 2),
+            'mir_dump_s': round(t_dump, 2), 'mir_identity': identity,
         },
         'assumptions': [
             'rustc MIR of the pinned nightly is the semantics of the crate (later lowering trusted)',
